@@ -93,8 +93,7 @@ Proof.
   - (* Send *)
     set (s1 := set_cbq s _).
     destruct (started s1 && negb (closing s1) && valid && negb (q_is_full s1)).
-    + constructor; subst s1; cbn; [destruct (1 <=? reqC s) eqn:E1; [apply Z.leb_le in E1|apply Z.leb_gt in E1]; lia|exact W2|].
-      intros; left. destruct (1 <=? reqC s) eqn:E1; [apply Z.leb_le in E1|apply Z.leb_gt in E1]; lia.
+    + constructor; subst s1; cbn; [lia|exact W2|]. intros; left; lia.
     + apply (WK_same s); try reflexivity. exact W.
   - (* Reply *)
     destruct (negb (r =? 0) && (pend s =? r)) eqn:E; [|exact W].
